@@ -253,6 +253,7 @@ def show(node):
 # ---- (3) histories ------------------------------------------------------------------------
 
 _PARSED = {}
+SHELL_QUERY_TEXT = "SELECT date, account, number FROM year = 2019 WHERE number > 100"
 
 
 def fresh_parse(text):
@@ -314,8 +315,27 @@ class World:
             ('FINDFIRST', lambda: c.execute(self.FINDFIRST)),
             ('SUBST', lambda: c.execute(self.SUBST)),
             ('PRINT', lambda: self._print()),
+            ('SHELLRUN', lambda: self._shellrun()),
+            ('TEXTQ', lambda: c.execute(SHELL_QUERY_TEXT)),
             ('ENTRIES', lambda: c.execute(self.ENTRIES)),
         ]
+
+    def _shellrun(self):
+        # a shell session in the same process running a NAMED query whose text is the one TEXTQ executes through
+        # the API (the shell pre-processes the parsed statement: default CLOSE date of the query directive)
+        import contextlib
+        import io
+        from beancount import loader
+        from beanquery import shell
+        out = io.StringIO()
+        entries, errors, options = loader.load_string(sample_ledger.TEXT.replace('__DOCFILE__', sample_ledger.__file__)
+                                                     + f'\n2019-02-15 query "jan" "{SHELL_QUERY_TEXT}"\n')
+        with contextlib.redirect_stdout(out), contextlib.redirect_stderr(out):
+            sh = shell.BQLShell(None, out)
+            sh.context.attach('beancount:', entries=entries, errors=errors, options=options)
+            sh._extract_queries(entries)
+            sh.onecmd('.run jan')
+        return _TextResult(out.getvalue())
 
     def _print(self):
         # what the shell does for a PRINT statement: compile, then execute_print into a file
@@ -383,20 +403,29 @@ def canon_state(w):
     return (names, info and (info.currsize,), tuple(sorted(vars(w.conn.tables['postings']).keys())))
 
 
-def check_history(hist, fresh, acc, names):
+_EXECUTED_IN_PROCESS = []      # distinct events executed by earlier histories of this process, in order of first execution
+
+
+def check_history(hist, fresh, acc, names, warmup=()):
+    for i in warmup:               # replay only: events an earlier history of the same process had executed
+        run_event(World().events()[i][1])
     w = World()
     before = w.snapshot()
     evs = w.events()
     acc.count('histories')
+    earlier = list(_EXECUTED_IN_PROCESS)
     for step, i in enumerate(hist):
         got = run_event(evs[i][1])
+        if i not in _EXECUTED_IN_PROCESS:
+            _EXECUTED_IN_PROCESS.append(i)
         acc.count('executions')
         acc.count('history_steps')
         if got != fresh[i]:
             prior = [names[j] for j in hist[:step]]
             kind = 'fails' if got[0] != 'ok' and fresh[i][0] == 'ok' else 'differs'
-            acc.violation(f'history:{names[i]}:{kind}', f'after {prior!r}, {names[i]} gives {str(got)[:300]}; on a fresh connection with a freshly parsed statement: {str(fresh[i])[:300]}',
-                          {'kind': 'history', 'history': list(hist)})
+            acc.violation(f'history:{names[i]}:{kind}', f'after {prior!r}, {names[i]} gives {str(got)[:300]}; on a fresh connection with a freshly parsed statement '
+                          f'in a pristine process: {str(fresh[i])[:300]} (events executed earlier in this process on other connections: {[names[j] for j in earlier]!r})',
+                          {'kind': 'history', 'history': list(hist), 'earlier_in_process': earlier})
             return
     if w.snapshot() != before:
         acc.violation('history:source-mutated', f'history {[names[j] for j in hist]!r} changed the source data', {'kind': 'history', 'history': list(hist)})
@@ -448,7 +477,7 @@ def replay(c):
     else:
         fresh = fresh_outcomes()
         names = [n for n, _ in World().events()]
-        check_history(tuple(c['history']), fresh, acc, names)
+        check_history(tuple(c['history']), fresh, acc, names, warmup=tuple(c.get('earlier_in_process', ())))
     return acc.violations
 
 
